@@ -51,7 +51,7 @@ def build(H, tier, seed):
 
 
 def standins(tier, seed):
-    return K.symcoef_jobs('C03', OPS + ['gp'], tier, seed)
+    return K.symcoef_jobs('C03', OPS + ['gp'], tier, seed, extra_configs=K.CUSTOM)
 
 
 replay = K.replay_operator
